@@ -674,6 +674,7 @@ class PtrMonitor:
         # run state
         self.bits: List[int] = []
         self.started = False
+        self.capacity_checked = False
         self.expected: Optional[int] = None
         self.current: Optional[Node] = None
         self.pass_index = -1
@@ -772,6 +773,22 @@ class PtrMonitor:
                 m.learn.pop(base + 2 * i + 1, None)
 
     def new_pass(self, memory: Any) -> bool:
+        if not self.capacity_checked:
+            # before anything was pushed or poked: every cell of the stack the program asked for is an empty data cell (a stack
+            # built shorter than documented has the code that follows it in those places)
+            self.capacity_checked = True
+            w = self.w
+            for r in self.b.regions:
+                if r.where != 'stack':
+                    continue
+                for i in range(r.first, r.cells):
+                    base = r.addr // w + 2 * i
+                    got = (memory.read_word(base), memory.read_word(base + 1))
+                    if got != (0, 0):
+                        self.current = None
+                        self.fail('stack-capacity', f'a stack of {r.cells - 1} cells was initialised, but cell {i} of it is not an empty cell before the first '
+                                                    f'push: words {got[0]:#x}, {got[1]:#x} (something else was assembled there)')
+                        return False
         for attempt in range(self.max_rejects):
             plan = self.planner(self.pass_index, self.rng, attempt)
             trial = self.model.copy()
